@@ -122,3 +122,105 @@ _add(
     "clear_to_send_timeout is set to 2 s on the tested instance (time scale only). Real-thread interleavings inside Transport.run are influenced (held link), not owned. "
     "Unlisted signatures are re-run twice before being reported.",
 )
+
+_add("C01", "pkt+refssh", PBT + ": generated duplex packet-layer sessions; paramiko<->paramiko equality plus differential against an independent RFC 4253 codec in both directions",
+     "Un-started Transports keyed through the production activation path (rekeys, strict-kex seqno reset, delayed zlib, generated read fragmentation) exchange generated message "
+     "sequences (1-200 messages, block-boundary and 32 KiB/64 KiB boundary lengths); the receiver must deliver exactly the sent (type,payload) list; the same wire bytes must decode under "
+     "vlib/refssh, and a refssh-produced stream must decode under paramiko (kills bugs symmetric in paramiko). Thorough covers all 216 cipher x MAC x compression triples >= 40 cases each.",
+     "Trusts vlib/refssh.py (validated against the fixed vector of tests/test_packetizer.py and by interop). GCM invocation-counter wrap at 2^64 is not reachable by generation.")
+_add("C02", "pkt+refssh", "fault enumeration: every single-byte flip/delete/insert position of recorded encrypted streams + generated multi-fault/swap/drop/replay plans; prefix oracle",
+     "For recorded streams of every framing class (CTR/CBC/3DES x plain/-96/ETM MAC, GCM, with and without zlib) every single-byte XOR, deletion and insertion position is applied and the "
+     "stream is fed to a freshly keyed production receiver: the delivered list must be an unmodified prefix of what was sent. Plus generated multi-fault edits, packet swaps, drops, duplicates, replays.",
+     "exhaustive=true refers to the single-byte edits of the streams recorded in that run. A modified packet accepted with identical content is counted (0 on this tree), not flagged: the statement allows it.",
+     category="fault_enumeration")
+_add("C03", "pkt+refssh", PBT + ": exhaustive enumeration of padding residues per suite/role/API on raw wire bytes + generated lengths; formula oracle + independent decoder",
+     "For all 72 cipher x MAC pairs x 3 compression settings x both roles x {send_message, _build_packet} every payload length 0..4*bs+8 is written and the raw bytes are checked: length field, "
+     "4 <= padding <= 255, encrypted span multiple of max(8,bs) (length excluded for ETM/GCM), MAC/tag length per table, refssh decodes the payload; plus generated lengths up to 70 000.",
+     "Lengths near 2^32 are not materialised: the arithmetic is covered by residue classes (padding depends on len mod bs only) and concretely up to 70 000 bytes.")
+_add("C04", "pkt+refssh", PBT + ": differential of Transport._compute_key against an independent RFC 4253 7.2 KDF + recorded installed key material + wire interop",
+     "Generated K (1-8192 bit incl. top-bit/byte-boundary values), H, session id, letter A-F, length 1..512, 4 hashes: _compute_key must equal refssh.kdf. For every cipher x MAC x kex-hash, both roles, two "
+     "exchanges: keys/IVs/MAC keys recorded by a harness Packetizer subclass equal the RFC letters (C/A/E, D/B/F) with the right sizes, peers agree, directions differ, and the wire decodes under refssh.",
+     "No external KDF vectors are available offline; the reference is validated by agreement and interop. Recording uses the public packetizer_class kwarg.")
+_add("C13", "net+peers", PBT + ": enumerated blocking-call x loss-kind x order fault schedules with generated parameters; bounded-progress oracle (10 s = 100x poll) confirmed by 3 runs",
+     "Every blocking API (recv, recv_stderr, send/sendall on zero window, recv_exit_status, exec_command, invoke_subsystem, open_session, auth_* incl. event forms, accept(None/5), global_request, "
+     "renegotiate_keys, start_client mid-kex) x 8 loss kinds (peer close, link EOF, link error, local close, DISCONNECT, garbage, ProxyCommand child exit/kill via a real relay child) x "
+     "{call first, loss first, together}: the call must return or raise within 10 s, is_active() must be False, and the same call re-issued must return/raise.",
+     "Wall-clock bound (100x the 0.1 s polling period); a violation needs 3 consecutive failing runs with the stuck thread's stack recorded. The blocked state is verified through sys._current_frames.")
+_add("C14", "net+peers+authkit", PBT + ": generated USERAUTH programs from a raw puppet client with independently built signatures/forgeries against a generated callback policy",
+     "A raw-mode puppet client sends hand-built USERAUTH_REQUESTs (none, password, publickey probe/valid/forged-one-field/replayed-across-sessions for every key type, keyboard-interactive, "
+     "gssapi-with-mic/keyex on a stub GSS context); USERAUTH_SUCCESS / is_authenticated() must imply that the recorded application callback for that user+method returned success and that an "
+     "independent (cryptography) verification of the signature over this session's id/user/service/algorithm/key succeeds. A forgery x algorithm matrix is enumerated every run.",
+     "GSS-API itself is a stub (no GSS library installed). The server-side gssapi-with-mic message path is unreachable on the real tree (handler-table dispatch TypeError, an observation outside C14).")
+_add("C15", "net+peers+authkit", PBT + ": generated pre-authentication programs (auth attempts x every connection-layer type 80-100, structured/truncated/random payloads) against callback log + wire + channel table",
+     "Before USERAUTH_SUCCESS no check_channel_*/port-forward/global-request callback may fire, accept(0) is None, no channel exists and the wire shows only refusals or a disconnect; after success the same "
+     "messages do reach the callbacks (control against a vacuous pass). Type x auth-state pairs are enumerated, payloads and interleavings sampled.",
+     "A transport that dies on a pre-auth message still satisfies the statement (nothing delivered); its exception class is C38's business.")
+_add("C16", "net+peers+authkit", "model-based " + PBT + ": generated request sequences (one by one and pipelined) compared with a model of the statement",
+     "Sequences of <= 25 USERAUTH requests over usernames/services/methods/outcomes; model = pinned user, failure count, authenticated, dead. Callback log, DISCONNECT on the wire, is_authenticated() "
+     "and is_active() must agree with the model after every step; callbacks only ever see the pinned username; nothing is evaluated after the end.",
+     "The extra clause disconnect-before-ten-failures has its own signature (never fires on this tree).")
+_add("C17", "net+peers+refssh", PBT + ": lifecycle-stage x method enumeration + generated known_hosts/policy configurations; observed only via the raw client->server stream decrypted by the independent reference",
+     "auth_* invoked at every stage of start_client (held link), Transport.connect(hostkey=...) variants, SSHClient.connect with generated known_hosts (same key, other key same type, other types, hashed, "
+     "[host]:port, other hosts) x policies: no USERAUTH_REQUEST in plaintext, no password/signature bytes anywhere in the raw stream before verification, nothing of type 50 to a mismatching/unknown/rejected server.",
+     "One known_hosts store per case. The plaintext SERVICE_REQUEST clause goes slightly beyond the literal statement and has its own signature.")
+_add("C18", "net+peers", "stateful " + PBT + " (RuleBasedStateMachine): tested client vs raw puppet server, model of enabled features",
+     "Rules: server global requests, server channel opens of every kind, server channel requests of every type, client request_x11/forward_agent/request_port_forward/cancel (puppet answers generated). "
+     "Oracle on the puppet's ordered log and the client's accept queue/handlers/channel table: global requests refused, opens refused unless the kind is enabled, exec/shell/subsystem/pty never approved.",
+     "One operation at a time closed by a sentinel; accepting an enabled kind is counted, not demanded (the statement is about refusal).")
+_add("C19", "net+peers+sched", PBT + ": history invariant on the puppet's wire log at every prefix + the same invariants on a real Channel under generated lock/line-level schedules",
+     "Sender tested against a puppet granting generated (window,max_packet) and WINDOW_ADJUSTs at generated moments; receiver tested with generated transport/channel window settings over the clamp "
+     "boundaries: sum(data+ext data) <= initial window + adjusts received so far; each message <= peer max packet (>= 4096); grants <= bytes consumed. E4 complement: Channel on a fake transport "
+     "under the deterministic scheduler (interleaving of _window_adjust with _wait_for_send_window generated).",
+     "E3 part uses one application reader thread; E4 has 1-2 reader tasks. Switching granularity is source lines + lock operations.")
+_add("C20", "net+peers+sched", PBT + ": real transport pairs with progress monitoring + window-obeying puppet leak oracle + exact deadlock verdicts under the deterministic scheduler",
+     "Generated window/packet sizes, stdout/stderr split, read sizes, mid-way set_combine_stderr: all data must arrive and sendall return; a puppet obeying the receiver's window sends extended data of type "
+     "codes 0..5: at idle points (bytes sent - adjusts received) must not exceed window/10 (paramiko's crediting threshold) - otherwise window leaked. E4: deadlock = no runnable task.",
+     "A real-transport stall needs 8 s without movement in three independent runs.")
+_add("C21", "net+peers+sched", PBT + ": stream-tagged payloads over up to 8 concurrent channels with rekeys/compression/fragmentation; exact per-stream comparison; E4 family for mid-transfer combine",
+     "Per channel the concatenated recv equals the concatenated stdout sends (likewise stderr); combine from the start = sender wire order; combine switched on mid-transfer: buffered stderr moves to stdout, "
+     "nothing lost/duplicated/reordered (split by tag); exit status 0..2^32-1 reported exactly. E4 drives set_combine_stderr against arriving data deterministically.",
+     "Channel closes happen only after rekeys finished. Exit status is checked on server->client channels.")
+_add("C22", "sched+chanbench", PBT + ": generated 2-4 task programs on a real Channel over a fake transport under owned schedules (random + exhaustive <=3-preemption enumeration); wire-log invariant",
+     "Tasks from send/sendall/send_stderr/shutdown_write/shutdown/close/recv + a transport task delivering peer WINDOW_ADJUST/EOF/CLOSE; switch points at lock operations, the send point and every source line of "
+     "the relevant channel.py functions. Invariant: <= 1 EOF, <= 1 CLOSE, peer CLOSE answered exactly once, no DATA after own EOF/CLOSE, released + failing operations after both CLOSEs.",
+     "Open known finding (recorded, not repaired): Channel._send reserves window under the lock, releases it, then transmits, so a concurrent close/shutdown_write/peer-CLOSE answer can put EOF/CLOSE on the wire "
+     "first. The bucket separates 'window reserved before EOF/CLOSE was decided' (the finding) from 'after' (where mutants land).")
+_add("C23", "net+peers", "stateful " + PBT + " over both real transports with a model of live ids; counters preset near 2^24; gated concurrent local+peer open",
+     "Rules: local open, peer open, close either/both, drop references (weak ChannelMap), counter jump onto/near live ids, gated race (peer open held inside check_channel_request while a local open runs). "
+     "Every id handed out is checked against the live set, the 24-bit range, the peer's view and the map entry.",
+     "Counter jumps stand in for 2^24 opens. After dropping a reference the harness waits for link quiescence (ids are freed at GC time).")
+_add("C24", "sched+chanbench", PBT + ": real Channel + real os.pipe + select under the deterministic scheduler with line-level switching in pipe.py/buffered_pipe.py (random + bounded-preemption enumeration)",
+     "2-3 tasks (feed stdout/stderr through the real handlers, recv, recv_stderr, EOF, peer close, set_combine_stderr) from generated buffer states; at every quiescent point select-readability of fileno() "
+     "must equal (buffered data or EOF or closed); deadlocks (e.g. blocked in os.read inside PosixPipe.clear) are classified by the scheduler.",
+     "Source-line granularity (settrace) plus synchronisation operations, not bytecode. All peer messages run on one task (there is one transport thread). User Channel.close() is not generated (destroys the descriptor).")
+_add("C25", "sched+chanbench", PBT + ": generated channel histories + concurrent tasks on a real Channel over a fake transport under the deterministic scheduler with virtual-time timeouts",
+     "sendall/sendall_stderr (0-300 KiB; blocking, timed, non-blocking) before/after/overlapping shutdown_write, shutdown, close, peer EOF/CLOSE, window changes, transport loss: either returns None with exactly "
+     "the bytes handed to the transport in order, or raises; never returns early; terminates (spin guard: 120 consecutive zero-byte sends with everyone else parked; deadlock classification).",
+     "Termination is decided exactly within the scheduler model; the real-transport stress complement is not implemented.")
+_add("C26", "sched", PBT + ": generated 1-3 task programs on the real BufferedPipe under the deterministic scheduler with a virtual clock; sequential model in linearisation order; exhaustive small-program enumeration",
+     "feed/read(n,timeout)/empty/close/read_ready/len programs; the linearisation is the order of each op's last acquisition of the pipe lock; reads+empties+rest == feeds in order; b'' only when closed and drained; "
+     "PipeTimeout only with an empty buffer and without side effects; no deadlock except all-readers-on-open-empty-pipe. Thorough enumerates all 2-task programs (<=3 ops, 7-op alphabet) with <= 3 preemptions.",
+     "Virtual time advances only when a timeout option is taken; a notified waiter can see time pass before re-acquiring the lock (as in real time).")
+_add("C27", "sftpenv", "differential " + PBT + ": generated file-operation programs on SFTPClient.open() objects vs a local twin file opened with the same mode",
+     "Programs of <= 40 steps (read/readline/readlines/iteration/write/writelines/seek/tell/flush/truncate/close/re-open; all modes; bufsize classes; pipelined on/off): data-returning calls equal, both raise or "
+     "neither, served bytes equal after flush/close and at the end. Return values of write/seek/truncate/flush/close are not compared (paramiko documents None).",
+     "Two open findings (operations on a closed file succeed silently; truncate on a closed file) are kept out by construction and demonstrated by committed replays. The variant through a real SSH transport is not implemented.")
+_add("C28", "sftpenv", PBT + ": generated prefetch/read/seek/readv programs against production SFTP over a socketpair with request-determined short server reads; position/bytes model + state-based deadlock proof",
+     "Position-coded file content (0-300 KiB), prefetch with max_concurrent_requests None/1..8 and wrong file_size, readv chunk lists (overlapping, unordered, zero-length, beyond EOF, > 32 KiB): every block equals "
+     "file[offset:offset+len] truncated at EOF, one block per chunk in order; hangs are proven from state (caller blocked in _read_response, nothing expected, prefetch threads parked), 15 s backstop with retries.",
+     "The monitor reads paramiko-private attributes (_expecting, _prefetch_extents, _prefetch_done); their disappearance is a harness error, not a violation.")
+_add("C31", "sftpenv", "differential " + PBT + ": generated attribute operations by path and by handle vs a twin file under os.truncate/chmod/utime/chown",
+     "File (0-100 KiB) + 1-4 operations (truncate to smaller/equal/larger, chmod, utime incl. None, chown) through SFTPClient/SFTPFile against SFTPServer.set_file_attr; bytes, size, mode, uid, gid (and times after utime) "
+     "compared after every operation.", "setuid/setgid/sticky bits, float timestamps and multi-attribute SETSTAT packets are not generated.")
+_add("C32", "sftpenv", PBT + ": generated check-file queries vs hashlib per block over the served bytes; deterministic server-read livelock guard for promptness",
+     "Files 0-400 KiB, offsets/lengths/block sizes around 64 KiB*k and EOF (block >= 256), md5/sha1: reply == concatenation of hash(file[o+i*b : min(o+(i+1)*b, end)]); end = EOF when length is 0 or runs past it; "
+     "an endless read loop is aborted inside the served handle after 1000 reads at/after EOF and reported.",
+     "Block sizes < 256 are outside the statement. Raw-packet variant not implemented.")
+_add("C40", "core", "model-based " + PBT + ": generated ssh_config texts looked up and compared key by key with an independent ~60-line first-obtained-value model",
+     "<= 12 Host/Match blocks over a small name/pattern pool (wildcards, negation, quoting), repeated keys, IdentityFile lists, %-tokens where both ssh_config(5) and paramiko's docs allow them, syntactic noise; "
+     "1-4 lookups per config; plus get_hostnames() set oracle and repeated-lookup stability.",
+     "Configs with Match host carry no HostName; %C/%l checked for shape only; no Match exec/canonical/final/user.")
+_add("C41", "core", "stateful " + PBT + " (RuleBasedStateMachine) + generated files; oracle relative to the saved text via a harness parser",
+     "Histories over load/load-again/add/SubDict set/del/save+reload/clear on generated known_hosts files (plain, hashed, multi-host lines, repeated hosts, several key types, comments, junk lines): after every step "
+     "lookup/check/keys agree with a harness parser applied to save() output, a fresh object loaded from that text agrees, and reloading changes nothing.",
+     "Fixed pool of 8 keys and 5 host names; lines for which HostKeys.load lets InvalidHostKey escape are excluded (long-standing behaviour outside the statement).")
